@@ -93,8 +93,9 @@ def write_producers(chk, prog, c):
         t0 = prog.ty(ins[0]["ty"]) if ins else {}
         if t0.get("k") == "ref" and t0.get("mut"):
             return "takes &mut T (exclusive access implies writability)"
-        if any(pr["k"] == "type_outlives" and pr["lt"] == "'static" for pr in f.get("predicates", [])):
-            return "T: 'static (cannot hold branded pointers)"
+        if t0.get("k") == "ref" and any(pr["k"] == "type_outlives" and pr["lt"] == "'static" and pr.get("ty") == t0.get("ty")
+                                         for pr in f.get("predicates", [])):
+            return "T: 'static on the referenced type (cannot hold branded pointers)"
         if ins and _mentions_write(prog, ins[0]["ty"]):
             return "receives a &Write on the container (a projection: its steps are R13.9's)"
         if any(x.callee in ("context::Mutation::backward_barrier",) for x in prog.calls_from(fn)):
@@ -123,7 +124,8 @@ def write_producers(chk, prog, c):
             ins = f.get("inputs") or []
             takes_write = bool(ins) and _mentions_write(prog, ins[0]["ty"])
             issues_barrier = any(x.callee in ("context::Mutation::backward_barrier",) for x in prog.calls_from(e.caller))
-            ok = takes_write or issues_barrier or f.get("unsafe")
+            # the same guards that license a producer license a caller of `assume` (a 'static referent, &mut access)
+            ok = takes_write or issues_barrier or f.get("unsafe") or guard_of(prog.fn_of_closure(e.caller)) is not None
         chk.inst("R13.1-assume-callers", "%s[%s]" % (e.caller, c), ok,
                  detail="`%s` calls Write::assume without holding a &Write on the container or issuing a barrier" % e.caller,
                  loc="%s:%s" % (e.file, e.line))
